@@ -18,8 +18,8 @@
 (* execution: no false positives.                                           *)
 (***************************************************************************)
 EXTENDS TraceBase
-VARIABLES l, vc, rel, endc, lastw, reads, raced
-hv == <<vc, rel, endc, lastw, reads, raced>>
+VARIABLES l, vc, rel, endc, lastw, reads, raced, mute
+hv == <<vc, rel, endc, lastw, reads, raced, mute>>
 MaxT == 8
 TT == 0..MaxT
 Zero == [t \in TT |-> 0]
@@ -31,7 +31,7 @@ Put(f, k, v) == [x \in DOMAIN f \cup {k} |-> IF x = k THEN v ELSE f[x]]
 Tick(t) == [vc EXCEPT ![t][t] = @ + 1]
 
 VC0 == [t \in TT |-> [u \in TT |-> IF u = t THEN 1 ELSE 0]]
-TInit == l = 1 /\ vc = VC0 /\ rel = <<>> /\ endc = <<>> /\ lastw = <<>> /\ reads = <<>> /\ raced = {} /\ TLCSet(1, 0)
+TInit == l = 1 /\ vc = VC0 /\ rel = <<>> /\ endc = <<>> /\ lastw = <<>> /\ reads = <<>> /\ raced = {} /\ mute = FALSE /\ TLCSet(1, 0)
 
 Acq(m) == m \in {1, 2, 4, 5}
 Rel(m) == m \in {3, 4, 5}
@@ -54,7 +54,8 @@ Acc(s, t, loc, wr) ==
      bad |-> IF ok THEN s.bad ELSE s.bad \cup {loc}]
 Cur == [lastw |-> lastw, reads |-> reads, raced |-> raced, bad |-> {}]
 Commit(s, t, what) ==
-    /\ (s.bad # {}) => MonViol(l, "C07: data race: " \o what \o " by thread " \o ToString(t) \o " on " \o ToString(s.bad)
+    /\ mute' = mute
+    /\ (s.bad # {} /\ ~mute) => MonViol(l, "C07: data race: " \o what \o " by thread " \o ToString(t) \o " on " \o ToString(s.bad)
                                   \o " is not ordered by happens-before after a conflicting access")
     /\ lastw' = s.lastw /\ reads' = s.reads /\ raced' = s.raced
 
@@ -71,36 +72,38 @@ TNext ==
     /\ LET e == Tr[l]
            t == IF e.t \in TT THEN e.t ELSE 0 IN
        CASE e.k = "reset" ->
-              vc' = VC0 /\ rel' = <<>> /\ endc' = <<>> /\ lastw' = <<>> /\ reads' = <<>> /\ raced' = {}
+              /\ vc' = VC0 /\ rel' = <<>> /\ endc' = <<>> /\ lastw' = <<>> /\ reads' = <<>> /\ raced' = {}
+              \* wrappers constructed with locking disabled promise nothing about races
+              /\ mute' = ("enabled" \in DOMAIN e.p /\ e.p.enabled = 0)
          [] e.k = "spawn" ->
               /\ vc' = [vc EXCEPT ![e.v] = Join(@, vc[0]), ![0][0] = @ + 1]
-              /\ UNCHANGED <<rel, endc, lastw, reads, raced>>
-         [] e.k = "end" -> endc' = Put(endc, t, vc[t]) /\ UNCHANGED <<vc, rel, lastw, reads, raced>>
+              /\ UNCHANGED <<rel, endc, lastw, reads, raced, mute>>
+         [] e.k = "end" -> endc' = Put(endc, t, vc[t]) /\ UNCHANGED <<vc, rel, lastw, reads, raced, mute>>
          [] e.k = "join" ->
               /\ vc' = [vc EXCEPT ![0] = [u \in TT |-> LET s == {vc[0][u]} \cup {endc[x][u] : x \in DOMAIN endc}
                                                        IN CHOOSE m \in s : \A y \in s : y <= m]]
-              /\ UNCHANGED <<rel, endc, lastw, reads, raced>>
+              /\ UNCHANGED <<rel, endc, lastw, reads, raced, mute>>
          [] e.k \in LockKinds \/ (e.k \in TryKinds /\ e.v = 1) ->
-              vc' = AcquireFrom(t, Key(e)) /\ UNCHANGED <<rel, endc, lastw, reads, raced>>
+              vc' = AcquireFrom(t, Key(e)) /\ UNCHANGED <<rel, endc, lastw, reads, raced, mute>>
          [] e.k \in UnlockKinds ->
-              rel' = ReleaseTo(vc, t, Key(e)) /\ vc' = Tick(t) /\ UNCHANGED <<endc, lastw, reads, raced>>
+              rel' = ReleaseTo(vc, t, Key(e)) /\ vc' = Tick(t) /\ UNCHANGED <<endc, lastw, reads, raced, mute>>
          [] e.k = "cvwait" ->
-              rel' = ReleaseTo(vc, t, <<e.x, e.i>>) /\ vc' = Tick(t) /\ UNCHANGED <<endc, lastw, reads, raced>>
+              rel' = ReleaseTo(vc, t, <<e.x, e.i>>) /\ vc' = Tick(t) /\ UNCHANGED <<endc, lastw, reads, raced, mute>>
          [] e.k = "ald" ->
               /\ vc' = IF Acq(e.m) THEN AcquireFrom(t, Key(e)) ELSE vc
-              /\ UNCHANGED <<rel, endc, lastw, reads, raced>>
+              /\ UNCHANGED <<rel, endc, lastw, reads, raced, mute>>
          [] e.k = "ast" ->
               /\ rel' = IF Rel(e.m) THEN Put(rel, Key(e), vc[t]) ELSE Put(rel, Key(e), Zero)
               /\ vc' = IF Rel(e.m) THEN Tick(t) ELSE vc
-              /\ UNCHANGED <<endc, lastw, reads, raced>>
+              /\ UNCHANGED <<endc, lastw, reads, raced, mute>>
          [] e.k = "arm" \/ (e.k = "cas" /\ e.u = 1) ->
               LET v1 == IF Acq(e.m) THEN AcquireFrom(t, Key(e)) ELSE vc IN
               /\ rel' = IF Rel(e.m) THEN Put(rel, Key(e), Join(Get(rel, Key(e)), v1[t])) ELSE rel
               /\ vc' = IF Rel(e.m) THEN [v1 EXCEPT ![t][t] = @ + 1] ELSE v1
-              /\ UNCHANGED <<endc, lastw, reads, raced>>
+              /\ UNCHANGED <<endc, lastw, reads, raced, mute>>
          [] e.k = "cas" /\ e.u = 0 ->
               /\ vc' = IF Acq(e.m) THEN AcquireFrom(t, Key(e)) ELSE vc
-              /\ UNCHANGED <<rel, endc, lastw, reads, raced>>
+              /\ UNCHANGED <<rel, endc, lastw, reads, raced, mute>>
          [] e.k \in WriteKinds -> Commit(Acc(Cur, t, Key(e), TRUE), t, e.k) /\ UNCHANGED <<vc, rel, endc>>
          [] e.k \in ReadKinds -> Commit(Acc(Cur, t, Key(e), FALSE), t, e.k) /\ UNCHANGED <<vc, rel, endc>>
          [] e.k \in CopyKinds -> Commit(Acc(Acc(Cur, t, Key(e), TRUE), t, <<e.o, e.u>>, FALSE), t, e.k) /\ UNCHANGED <<vc, rel, endc>>
